@@ -196,7 +196,7 @@ def rewrite_assert_eq(text):
 LABELLED_LET_RX = re.compile(r"\blet\s+(mut\s+)?(\w+)\s*(?::\s*([^=;{}]+?))?\s*=\s*('\w+)\s*:\s*\{")
 
 
-def rewrite_labelled_blocks(text):
+def rewrite_labelled_blocks(text, types=None):
     """T10: Verus supports neither labelled blocks nor `break` with a value.
         let v = 'L: { ...; break 'L e; ...; tail }      ==>
         let v; 'L: loop /*vx:T10*/ decreases 0int { ...; { v = e; break 'L; } ...; v = tail; break 'L; }
@@ -255,6 +255,8 @@ def rewrite_labelled_blocks(text):
             last = e0
         out.append(text[last:close])
         newbody = ''.join(out)
+        if not ty and types and var in types:
+            ty = types[var]   # T10: the deferred `let v;` needs the type the initialiser used to give it (named in the unit, checked by rustc)
         decl = 'let %s%s%s;' % (mutkw, var, (': ' + ty.strip()) if ty else '')
         repl = '%s\n%s: loop /*vx:T10 was a labelled block*/\n    decreases 0int\n{%s}' % (decl, label, newbody)
         text = text[:m.start()] + repl + text[k + 1:]
@@ -538,7 +540,8 @@ def inline_crate(repo, arg, subs, unit):
             unit.transforms.append(t)
         elif w[0] == 'labelled_blocks':
             try:
-                text, done = rewrite_labelled_blocks(text)
+                types = dict(kv.split(':', 1) for kv in (w[1].split() if len(w) > 1 else []) if ':' in kv)
+                text, done = rewrite_labelled_blocks(text, types)
             except ValueError as e:
                 from splice import LostAnchor
                 raise LostAnchor(str(e))
